@@ -33,12 +33,15 @@ ASSUMPTIONS = [
     'OverflowError (API) / FODT0001 (XPath) is accepted instead of the value; any value returned is still judged',
     'duration * / div by a number: results compared within 1 microsecond (F&O leaves the rounding open)',
     'the python-level year property is not judged (internal numbering); year-from-* through XPath is',
+    'xs:duration values that are incomparable in the XSD partial order: only < > = != are judged (all four reference '
+    'dateTimes of XSD 3.3.6.2), not <= >=',
 ]
 FLOORS = {
     'y:bce': (0.20, 'dt:case'), 'y:big': (0.08, 'dt:case'), 'xsd:1.0': (0.30, 'dt:case'), 'tz:some': (0.40, 'dt:case'),
     'h24': (0.02, 'dt:case'), 'frac': (0.15, 'dt:case'), 'day>=29': (0.08, 'dt:case'),
     'order:years-differ+tz': (0.05, 'order:case'), 'arith:crosses-year': (0.05, 'arith:case'),
-    'ym:clamped': (0.04, 'arith:ym'), 'ref:judged': (0.55, 'dt:case'),
+    'ym:clamped': (0.04, 'arith:ym'), 'ref:judged': (0.55, 'dt:case'), 'ym:in-range': (0.25, 'arith:ym'),
+    'dur:order-incomparable': (0.05, 'dur:duration'), 'xorder:implicit-tz': (0.03, 'xpath:case'),
 }
 
 BIG = 2 ** 31
@@ -238,6 +241,12 @@ def _case_duration(draw):
     m2, us2 = one()
     if draw(st.integers(0, 5)) == 0:
         m2, us2 = m1, us1
+    elif kind == 'duration' and draw(st.integers(0, 2)) == 0:
+        # months against about as many days: the XSD order is partial here (P1M <> P30D)
+        m1 = draw(st.integers(-30, 30))
+        days = abs(m1) * 30 + abs(m1) * 7 // 16 + draw(st.integers(-3, 3))
+        m2, us2 = 0, (max(days, 0) * 86400 * 10 ** 6 + draw(st.sampled_from([0, 0, 1, 43200 * 10 ** 6]))) * (-1 if m1 < 0 else 1)
+        us1 = 0
     n = draw(st.sampled_from([[1, 1], [2, 1], [3, 1], [7, 1], [-1, 1], [-3, 1], [3, 2], [1, 4], [5, 2], [10, 1],
                               [1000, 1], [-7, 2], [1, 8]]))
     return {'kind': kind, 'm1': m1, 'us1': us1, 'm2': m2, 'us2': us2, 'n': n,
@@ -421,7 +430,8 @@ def _res_fam(xsd, r):
 
 
 _FAM_PRIORITY = ['radd-dayTime-dateTime', 'neg-frac', 'time-dur>=730000d', 'bce@1.0', 'res-feb29-big-1.1', 'res-bce-jan1Tx',
-                 'res-print-1.1-le--9999', 'ym-year-out-of-range', 'adjust-date-moves-day', 'implicit-tz', 'years-differ+tz']
+                 'res-print-1.1-le--9999', 'ym-year-out-of-range', 'adjust-date-moves-day', 'implicit-tz', 'years-differ+tz',
+                 'cmp-leap-proxy-big-1.1']
 
 
 def _fam(*parts):
@@ -625,7 +635,14 @@ def _value_delta(C, t, obj, rv, xsd, discs, want):
         exp_back = fmt(t, mid, xsd)
     else:
         exp_back = mid = None
-    if exp_back is not None and str(back) != exp_back:
+    same = str(back) == exp_back
+    if exp_back is not None and not same and rv['tz'] is not None:
+        # with a timezone only the instant must survive (the form of the result is elementpath's choice)
+        got = parse_lex(t, str(back))
+        if got is not None and 'us' in got:
+            g = dict(got, y=cal.astro_year(got['y'], xsd)) if got['y'] or xsd == '1.1' else None
+            same = g is not None and cal.days_in_month(g['y'], g['mo']) >= g['d'] and cal.instant(g, 0) == cal.instant(cv, 0)
+    if exp_back is not None and not same:
         fam = _fam('bce@1.0' if amb else None, _res_fam(xsd, mid))
         discs.append(Disc(_bk(fam, diff_fields(t, exp_back, str(back)), f'value/fromdelta-todelta/{t}'),
                           exp_back, str(back), f'{want} todelta={td!r}'))
@@ -828,13 +845,19 @@ def _order_verdict(t, xsd, r1, r2, itz=0):
     return _rel(i1, i2)
 
 
-def _pair_fam(t, r1, r2):
-    """'years-differ+tz': the local years differ and a timezone is present (the order is decided by instants)"""
+def _pair_fam(t, r1, r2, xsd):
+    """'years-differ+tz': the local years differ and a timezone is present (the order is decided by instants);
+    'cmp-leap-proxy-big-1.1': XSD 1.1, same year > 9999 whose successor has another leap status, timezones differ and
+    a value lies within a day of the end of February (the proxy year has the wrong February)"""
     if t not in HAS_YEAR:
         return 'plain'
     c1, c2 = _canon(t, r1), _canon(t, r2)
     if c1['y'] != c2['y'] and (r1['tz'] is not None or r2['tz'] is not None):
         return 'years-differ+tz'
+    y = c1['y']
+    if xsd == '1.1' and y > 9999 and r1['tz'] != r2['tz'] and cal.is_leap(y) != cal.is_leap(y + 1) and \
+            any((c['mo'], c['d']) in ((2, 27), (2, 28), (2, 29), (3, 1), (3, 2)) for c in (c1, c2)):
+        return 'cmp-leap-proxy-big-1.1'
     return 'plain'
 
 
@@ -852,7 +875,7 @@ def judge_order(case, rec: Recorder | None = None):
         for j in range(3):
             if i == j or objs[i] is None or objs[j] is None:
                 continue
-            pf = _pair_fam(t, refs[i], refs[j])
+            pf = _pair_fam(t, refs[i], refs[j], xsd)
             if i < j:
                 cl.append('order:' + pf)
             verdict = _order_verdict(t, xsd, refs[i], refs[j])
@@ -879,11 +902,11 @@ def judge_order(case, rec: Recorder | None = None):
     if t in FULL and all(o is not None for o in objs) and len(rels) == 6 and all(len(r) == 6 for r in rels.values()):
         for i, j in ((0, 1), (0, 2), (1, 2)):
             if rels[(i, j)]['lt'] != rels[(j, i)]['gt'] or rels[(i, j)]['eq'] != rels[(j, i)]['eq']:
-                discs.append(Disc(_bk(_pair_fam(t, refs[i], refs[j]), 'converse', f'order/compare/{t}'), 'a<b iff b>a',
+                discs.append(Disc(_bk(_pair_fam(t, refs[i], refs[j], xsd), 'converse', f'order/compare/{t}'), 'a<b iff b>a',
                                   [rels[(i, j)], rels[(j, i)]], f'{fmt(t, refs[i], xsd)} vs {fmt(t, refs[j], xsd)}'))
         for i, j, k in ((0, 1, 2), (0, 2, 1), (1, 0, 2), (1, 2, 0), (2, 0, 1), (2, 1, 0)):
             if rels[(i, j)]['le'] and rels[(j, k)]['le'] and not rels[(i, k)]['le']:
-                pfs = {_pair_fam(t, refs[p], refs[q]) for p, q in ((i, j), (j, k), (i, k))}
+                pfs = {_pair_fam(t, refs[p], refs[q], xsd) for p, q in ((i, j), (j, k), (i, k))}
                 discs.append(Disc(_bk('years-differ+tz' if 'years-differ+tz' in pfs else 'plain', 'transitivity', f'order/compare/{t}'),
                                   'a<=b and b<=c implies a<=c', 'violated', ' , '.join(fmt(t, refs[p], xsd) for p in (i, j, k))))
                 break
@@ -1073,7 +1096,7 @@ def judge_xpath(case, rec: Recorder | None = None):
         verdict = _order_verdict(t, xsd, ra, rb, itz)
         if verdict is not None:
             judged = True
-            pf = _fam(ifam, _pair_fam(t, ra, rb))
+            pf = _fam(ifam, _pair_fam(t, ra, rb, xsd))
             cl.append('xorder:' + pf)
             for style, sym in (('value', lambda n: n), ('general', lambda n: _GEN[n])):
                 expr = '(' + ', '.join(f'{la} {sym(n)} {lb}' for n in names) + ')'
@@ -1235,7 +1258,9 @@ def judge_duration(case, rec: Recorder | None = None):
     want['eq'], want['ne'] = same, not same
     if same:
         want.update(le=True, ge=True)
-    bad = sorted(n for n in obs if obs[n] != want[n])
+    if rel is None and not same:
+        del want['le'], want['ge']      # XSD defines only < and = on the partial order: <= >= of incomparable values not judged
+    bad = sorted(n for n in obs if n in want and obs[n] != want[n])
     if bad:
         discs.append(Disc(f'C11/duration/order/{kind}/' + ('incomparable' if rel is None else 'comparable') + '/' +
                           ('eq' if set(bad) <= {'eq', 'ne'} else 'order'), {n: want[n] for n in bad}, {n: obs[n] for n in bad},
